@@ -1065,6 +1065,9 @@ def check_c17(run):
     # scheme-relative form, special / file bases and the empty base
     plan.append((Family("idemref", L + "/?#.:", 2 if q else 3, bases=["x:80", "m:o?q#f", "b/c?d", "localhost:8080", "http://u:p@h:8/a/b?q#f", "file:///C:/d", "//h", "", "%2562/./c"],
                         nobase=False, invariants=["PtrOk"]), None))
+    # opaque hosts whose decoded form starts with a delimiter ('/', ':', '@', '#'), with and without credentials / port: the host setter refuses to
+    # empty a host while credentials or a port are present, so the order of "remove" and "decode" matters (finding F27, repaired)
+    plan.append((Family("idemopaquehost", "%2f:@/8#", 3 if q else 4, prefixes=["x://", "x://u@", "x://%2f", "x://u:p@%2f", "http://u@h"], bases=[], nobase=True, invariants=["PtrOk"]), None))
     for f, profs in plan:
         mod = f.write(run.scratch)
         if profs is None:
